@@ -632,6 +632,15 @@ func (uconn *UConn) MarshalClientHelloNoECH() error {
 		helloLen += 2 + extensionsLen // 2 bytes for extensions' length
 	}
 
+	// The extensions block is prefixed by a uint16 length and the handshake message by a
+	// uint24 length: refuse to emit a ClientHello whose length fields would be truncated.
+	if extensionsLen > 0xffff {
+		return errors.New("utls: extensions too long to be encoded in ClientHello: " + strconv.Itoa(extensionsLen) + " bytes")
+	}
+	if helloLen > 0xffffff {
+		return errors.New("utls: ClientHello too long to be encoded: " + strconv.Itoa(helloLen) + " bytes")
+	}
+
 	helloBuffer := bytes.Buffer{}
 	bufferedWriter := bufio.NewWriterSize(&helloBuffer, helloLen+4) // 1 byte for tls record type, 3 for length
 	// We use buffered Writer to avoid checking write errors after every Write(): whenever first error happens
